@@ -1190,3 +1190,29 @@ pub fn deep_regrow<S: USet>(c: usize, stack_kb: usize) -> bool {
     }).unwrap();
     h.join().unwrap_or(false)
 }
+
+/// D11 probe: fail the first allocation made inside `collect()` / the inline `remove` (both build a `Vec`).
+/// Returns only if the process is still alive afterwards.
+pub fn vecfail<S: USet>(which: &str) -> &'static str {
+    let mut s = S::new();
+    s.ins(1);
+    s.ins(3);
+    alloc::FAIL_AT.store(0, SeqCst);
+    let r = catch_unwind(AssertUnwindSafe(|| {
+        alloc::under_test(|| match which {
+            "collect" => {
+                let c = S::collect(&[5, 1 << 20, 77]);
+                drop(c);
+            }
+            _ => {
+                s.rem(1);
+            }
+        })
+    }));
+    alloc::FAIL_AT.store(-1, SeqCst);
+    if r.is_err() {
+        "PANICKED"
+    } else {
+        "RETURNED"
+    }
+}
